@@ -34,6 +34,10 @@ package otp
 //@   ensures[C09] login_announced: each Sess.Put("uid", _) => after Fire("After", EventAuth, _, _, _)
 //@   -- C09: the stamp the announcement queues is not taken back by anything queued after it
 //@   ensures[C09] stamp_survives: each Fire("After", EventAuth, _, _, _) => !(after Sess.DelAll(_)) && !(after Sess.Del("last_action"))
+//@   -- C09: an announcement that failed (a handler in the chain errored, so later ones - the
+//@   -- stamp - did not run) is an error outcome, not a completed login
+//@   ensures[C09] announcement_error_outcome: each Fire("After", EventAuth, _, _, _) -> (_, ?fe) => fe != nil ==>
+//@       (result == fe && !emits Redirect(_) && !emits Respond(_, _, _))
 //@   ensures[C01] only_uid: each Sess.Put(?k, _) => k == "uid"
 //@   ensures[C02] hijack_fired: each Sess.Put("uid", ?v) =>
 //@       before Fire("Before", EventAuthHijack, ?cu, _, _) -> (?hd, ?e) :: hd == false && e == nil && PID(cu) == v
@@ -51,11 +55,11 @@ package otp
 //@   -- C16: same as the password flow - a handled first event adds nothing observable; unknown
 //@   -- account and wrong one-time password get the same answer
 //@   ensures[C16] handled_adds_nothing: (emits Fire(_, _, _, _, _) -> (?hd, ?e) :: hd && e == nil && !(before Fire(_, _, _, _, _))) ==>
-//@       (result == nil && !emits Respond(_, _, _) && !emits Redirect(_) && !emits Sess.Put(_, _) && !emits Sess.Del(_) && !emits Cook.Put(_, _) && !emits Cook.Del(_) &&
+//@       (result == nil && !emits Respond(_, _, _) && !emits Redirect(_) && !emits Sess.Put(_, _) && !emits Sess.Del(_) && !emits Sess.DelAll(_) && !emits Cook.Put(_, _) && !emits Cook.Del(_) &&
 //@        !emits HeaderSet(_, _, _) && !emits WriteHeader(_, _) && !emits Write(_, _) && !emits HTTPRedirect(_, _, _))
 //@   ensures[C16] unknown_vs_wrong: each Respond(?code, ?page, ?data) =>
 //@       (code == 200 && page == PageLogin && maplen(data) == 1 && mapget(data, DataErr) == loc(o.Authboss, TxtInvalidCredentials) &&
-//@        !emits Sess.Put(_, _) && !emits Sess.Del(_) && !emits Cook.Put(_, _) && !emits Cook.Del(_) && !emits Redirect(_) &&
+//@        !emits Sess.Put(_, _) && !emits Sess.Del(_) && !emits Sess.DelAll(_) && !emits Cook.Put(_, _) && !emits Cook.Del(_) && !emits Redirect(_) &&
 //@        !emits HeaderSet(_, _, _) && !emits WriteHeader(_, _) && !emits Write(_, _) && !emits HTTPRedirect(_, _, _))
 //@
 //@ func (*OTP).AddPost
